@@ -41,6 +41,14 @@
 // ends with the drain epilogue (answer everything, wake the send loop with a high-priority probe call, repeat)
 // before the final Close.
 //
+// Part C (configurations with part=C; collapse.go) explores the request-collapse layer that production puts on top of
+// the RPC client - NewReqCollapse(NewInterceptedClient(client)) - on a scripted store that parks and echoes every
+// request: concurrent region-level ResolveLock requests (identical, plainly different, and different ones whose
+// decimal fields concatenate to the same text), resolve-lock lite / batch resolve / other commands that must never
+// be merged, through SendRequest and SendRequestAsync, in all orders relative to the answer / failure / time-out of
+// the requests at the store and to the cancellation / time-out of the waiting callers. Oracle: own response, exactly
+// once, and every request that is not identical to a pending one reaches the store (see the header of collapse.go).
+//
 // Nothing is decided by wall-clock time. If quiescence cannot be established, or an execution took
 // longer than 0.5 s (a real timer of gRPC could have fired), the execution is repeated and finally
 // counted as inconclusive (exhaustive:false). A violation is believed only if three re-executions
@@ -49,7 +57,8 @@
 // its subtree re-done.
 //
 // Files: main.go (processes, reporting, replay), world.go (server, callers, virtual timers,
-// quiescence), explore.go (events, oracle, depth-first enumeration), vctx/ (context shim).
+// quiescence), explore.go (events, oracle, depth-first enumeration), collapse.go (part C: scripted store,
+// request shapes, events, reference model), vctx/ (context shim).
 package main
 
 import (
@@ -329,6 +338,7 @@ type totals struct {
 	acctChecks      int
 	sendChecks      int
 	partB           map[string]int
+	partC           map[string]int
 	poisoned        int
 	mismatchSamples []string
 	details         []string
@@ -356,6 +366,9 @@ func (t *totals) merge(cfg Config, r *subtreeResult) {
 		t.partB["late_answers_to_abandoned_requests"] += r.LateAnswers
 		t.partB["executions_with_late_answer_then_further_call"] += r.ExecLateFollow
 		t.partB["executions_with_at_least_limit_late_answers_then_further_call"] += r.ExecLateFull
+	}
+	for k, v := range r.PartC {
+		t.partC[k] += v
 	}
 	for _, s := range r.States {
 		t.states[s] = struct{}{}
@@ -423,10 +436,17 @@ func tierConfigs(thorough bool) []Config {
 		var v, st, ax int
 		fmt.Sscanf(s, "%d,%d,%d,%d,%d,%d,%d,%s", &c.Callers, &c.MaxF, &c.Conns, &c.Limit, &v, &st, &ax, &c.Part)
 		c.Variants, c.Stale, c.AddrX = v != 0, st != 0, ax != 0
+		if part, grid, ok := strings.Cut(c.Part, "/"); ok { // e.g. 2,2,0,0,0,0,0,C/pairs
+			c = Config{Part: part, Grid: grid, Callers: c.Callers, MaxF: c.MaxF}
+		}
 		return []Config{c}
 	}
 	if !thorough {
 		return []Config{
+			// part C (collapse.go; cheap, so it comes first): the request-collapse layer on a scripted store; every pair of
+			// the 15 request shapes x {SendRequest, SendRequestAsync}, then 3 callers over the 5 shapes of the small grid
+			{Part: "C", Callers: 2, MaxF: 3, Grid: "pairs"},
+			{Part: "C", Callers: 3, MaxF: 1, Grid: "small"},
 			{Callers: 2, MaxF: 3, Conns: 1, Variants: true, Stale: true, AddrX: true},
 			{Callers: 3, MaxF: 3, Conns: 1, Variants: true, Stale: true, AddrX: true},
 			// concurrency limit 1: later requests queue inside the send loop (priorities matter, batches > 1)
@@ -443,6 +463,12 @@ func tierConfigs(thorough bool) []Config {
 		}
 	}
 	return []Config{
+		// part C, deeper: every pair of the full grid (regions {1,12,123} x start versions {1,2,3,21,23}, flags, kinds),
+		// three callers over the 15 shapes of the quick tier's pair grid, three (F<=2) and four callers over the small grid
+		{Part: "C", Callers: 2, MaxF: 3, Grid: "full"},
+		{Part: "C", Callers: 3, MaxF: 1, Grid: "pairs"},
+		{Part: "C", Callers: 3, MaxF: 2, Grid: "small"},
+		{Part: "C", Callers: 4, MaxF: 0, Grid: "small"},
 		// part B (see the quick tier), deeper: more callers / more callers that give up, limit 3, two connections
 		{Part: "B", Callers: 4, MaxF: 4, Conns: 1, Limit: 1},
 		{Part: "B", Callers: 4, MaxF: 4, Conns: 1, Limit: 2},
@@ -478,6 +504,12 @@ func exploreConfig(cfg Config, tot *totals, samples *ev.Samples, nproc int, dead
 	splitDepth := 3 // subtrees are handed to the workers at this depth
 	if cfg.Callers >= 4 {
 		splitDepth = 5 // (the all-default prefixes S0 S1 S2 ... carry most of the tree: split them further)
+	}
+	if cfg.Part == "C" {
+		splitDepth = 2 // (wide tree: every request shape x API is a branch of a submission)
+		if cfg.Callers >= 3 {
+			splitDepth = 3
+		}
 	}
 	fr, err := fw.do(workItem{Cfg: cfg, Frontier: splitDepth})
 	fw.stop()
@@ -576,6 +608,20 @@ func exploreConfig(cfg Config, tot *totals, samples *ev.Samples, nproc int, dead
 	tot.mu.Unlock()
 }
 
+// partCGrids lists the request shapes of every grid used by a part C configuration (for the evidence).
+func partCGrids(cfgs []Config) map[string][]string {
+	out := map[string][]string{}
+	for _, c := range cfgs {
+		if c.Part != "C" || out[c.Grid] != nil {
+			continue
+		}
+		for _, s := range gridShapes(c.Grid) {
+			out[c.Grid] = append(out[c.Grid], s.Name+" = {"+s.content()+"}")
+		}
+	}
+	return out
+}
+
 type replayArt struct {
 	Cfg    Config   `json:"cfg"`
 	Events []string `json:"events"`
@@ -671,7 +717,7 @@ func main() {
 	}
 	deadline := time.Now().Add(budget)
 	tot := &totals{states: map[uint64]struct{}{}, outcomes: map[string]int{}, inconclusive: map[string]int{}, byF: map[string]int{},
-		kinds: map[string]int{}, partB: map[string]int{}, errorLogs: map[string]bool{}, viol: map[string]violHit{}, violCfg: map[string]Config{}, obs: map[string]violHit{}, obsCfg: map[string]Config{}}
+		kinds: map[string]int{}, partB: map[string]int{}, partC: map[string]int{}, errorLogs: map[string]bool{}, viol: map[string]violHit{}, violCfg: map[string]Config{}, obs: map[string]violHit{}, obsCfg: map[string]Config{}}
 	samples := ev.NewSamples(6, run.Seed)
 	cfgs := tierConfigs(run.Thorough())
 	var cfgNames []string
@@ -719,11 +765,17 @@ func main() {
 			"stream drop, cancel, time-out, Close, CloseAddr) with at most F deviation events, each on a fresh RPCClient + gRPC server; callers submit in index order " +
 			"(the index is only a name); states = distinct observation states (caller status and result class, server request table, streams, closed flags); " +
 			"transitions = events executed on the real client; evaluations = events after which the oracle compared before/after observations; " +
-			"non-trivial = execution with a deviation event or >= 2 calls in flight at once",
-		"samples":           samples.List(),
-		"bounds":            map[string]any{"configurations": cfgNames, "split_depth": "3 (5 with 4 callers)", "worker_processes": nproc},
+			"non-trivial = execution with a deviation event or >= 2 calls in flight at once. " +
+			"Part C (configurations part=C, collapse.go): the same enumeration on NewReqCollapse(NewInterceptedClient(scripted store)): events = caller i submits " +
+			"request shape s through SendRequest / SendRequestAsync (every shape of the grid x both APIs is a branch), the store answers / fails / times out its n-th request " +
+			"(any order), caller i cancels / its own time-out fires; at most F failures, time-outs and cancellations; states there = callers (shape, API, result class, flight " +
+			"they wait for) x store request table; the reference model knows only request contents, never the collapse key",
+		"samples": samples.List(),
+		"bounds": map[string]any{"configurations": cfgNames, "split_depth": "3 (5 with 4 callers; part C: 2, 3 with >= 3 callers)", "worker_processes": nproc,
+			"part_C_grids": partCGrids(cfgs)},
 		"per_configuration": tot.perCfg,
 		"part_B":            tot.partB,
+		"part_C":            tot.partC,
 		"healthy_store_oracle": map[string]any{
 			"slot_accounting_evaluations":                   tot.acctChecks,
 			"request_never_sent_evaluations_at_submissions": tot.sendChecks,
@@ -758,6 +810,7 @@ func main() {
 		"A call that stays pending after its stream failed is NOT a violation (the property only promises a return by the call's own time-out / cancellation / Close, which keep their own must-return rules; an asynchronous call never completed even by Close is a violation): it is counted under coverage.observations with the shortest sequence, as is the entry it leaves in the in-flight table. A stream failure must still not fail calls of other streams, and an answered call must return (own violation keys spurious-return/..., stuck/.../after-A).",
 		"A livelock is reported only on positive evidence that does not depend on time: in 40 consecutive scheduler passes the client's no-available-connection counter moved and stack snapshots show the send loop as the only goroutine that is not blocked.",
 		"Healthy-store oracle: a violation is claimed only where the environment withheld nothing - client open, no armed send failure, every needed stream alive, every request the server received answered (drain), the send loop woken by a submission / probe after the slot was free, and unbounded virtual time (the time-outs of waiting calls are never fired by the epilogue; a T event of the enumeration is a legitimate time-out and is judged by the time-out rule only). Free slots are computed from the server's table, never from the client's counters. NOT judged (observation queued_behind_limit_until_next_submission): the unchanged client re-examines calls queued behind max-concurrency-request-limit only when a new submission wakes the send loop - an answer that frees a slot does not; such a call waits for the next submission or its own time-out (an asynchronous one for ever if no further call to that store is made). Executions in which a stream failed after the stream of the other kind of its connection had failed (known unclaimed entry leak, findings/C18-candidate-fixes.diff item 1) are not judged by this oracle from that point on. With 2 connections and a finite limit only call-never-returns and slot-accounting are evaluated (which connection a call is queued for is not observable).",
+		"Part C: the store below the collapse layer is scripted (it parks every request and echoes it in the response), so the collapse layer is explored on its own, not stacked on the batch client of parts A/B; its time-out timer is virtual (vtime rewrite of client_collapse.go). Sharing a flight is never demanded, only wrong sharing is judged: a submission that makes no request arrive at the store must be a region-level ResolveLock with an identical request pending. Requests that differ only in the commit version (one pair in the grid) are outside the judged domain - a transaction has one fate - and are reported as observation requests_differing_only_in_commit_version_share_a_flight. The store address and the region epoch / peer of the request context are fixed. Events are separated by quiescence (level 1), so two submissions never race inside singleflight.",
 		"Batch policy 'basic' (no time based batch waiting); the server never answers on a stream of another connection or kind; stream drops do not break the connection; errors of waitConnReady (dial budget) count as connection failures.",
 	})
 }
